@@ -23,6 +23,7 @@
 #include "awkward/array/RecordArray.h"
 #include "awkward/array/Record.h"
 #include "awkward/array/VirtualArray.h"
+#include "awkward/array/None.h"
 
 namespace ak = awkward;
 
@@ -263,10 +264,22 @@ namespace awsim {
           top(m.get());
           return;
         }
+        if (dynamic_cast<const ak::None*>(c) != nullptr) {
+          out += "{\"scalar\":null}";
+          return;
+        }
         if (const ak::NumpyArray* np = dynamic_cast<const ak::NumpyArray*>(c)) {
           if (np->shape().empty()) {
             out += "{\"scalar\":";
             scalar(np, reinterpret_cast<const uint8_t*>(np->data()));
+            out += "}";
+            return;
+          }
+          // one string taken out of an array of strings is a flat array of chars
+          std::string ap = array_param(c);
+          if (np->shape().size() == 1  &&  (ap == "char"  ||  ap == "byte")) {
+            out += "{\"scalar\":";
+            bytes_of(c, 0, np->length(), ap == "char" ? "s" : "b");
             out += "}";
             return;
           }
